@@ -82,21 +82,55 @@ def showResult (ts : List String) (len0 : Nat) (l : Loc) : String :=
         (if l.out.length == len0 then showPairs (sortPairs l.out) else "partial")
   | _ => "ok"
 
-def runOps : KV → List String → List String
-  | _, [] => []
-  | s, line :: rest =>
+/-! ### Iterator handles (`iter.Seq2` values returned by `All()`)
+`seq <slot>` calls `All()` and keeps the returned function in a slot WITHOUT ranging it;
+`rangeseq <slot> <limit>` ranges the kept function now (any number of times, also after
+`clear`, `set`, `map…` calls in between); `nestseq <slot>` ranges it completely and, inside
+the loop body, ranges it completely again.  As coded, `All()` itself touches nothing (its
+whole body is the returned closure, which takes the read lock and reads `s.entries` when it
+is RANGED): a handle carries no state, so ranging it is the call `.all limit` on the
+CURRENT map (`c12_seq_handle_current`). -/
+
+def runOps : List Nat → KV → List String → List String
+  | _, _, [] => []
+  | slots, s, line :: rest =>
     let ts := toks line
-    match parseCall? ts with
-    | none => "bad-op" :: runOps s rest
-    | some c =>
-      let p := seqCall c s
-      showResult ts s.length p.2 :: runOps p.1 rest
+    match ts with
+    | ["seq", k] =>
+      match k.toNat? with
+      | some k => "ok" :: runOps (k :: slots) s rest
+      | none => "bad-op" :: runOps slots s rest
+    | ["rangeseq", k, n] =>
+      match k.toNat?, n.toNat? with
+      | some k, some n =>
+        if slots.contains k then
+          let p := seqCall (.all n) s
+          showResult ["all"] s.length p.2 :: runOps slots p.1 rest
+        else "bad-op" :: runOps slots s rest
+      | _, _ => "bad-op" :: runOps slots s rest
+    | ["nestseq", k] =>
+      match k.toNat? with
+      | some k =>
+        if slots.contains k then
+          -- outer traversal complete; one complete inner traversal per outer element
+          let outer := (seqCall (.all s.length) s).2.out.length
+          let inner := (seqCall (.all s.length) s).2.out.length
+          ("outer=" ++ toString (if s.isEmpty then 0 else outer) ++ " inner=" ++
+            toString (if s.isEmpty then 0 else outer * inner)) :: runOps slots s rest
+        else "bad-op" :: runOps slots s rest
+      | none => "bad-op" :: runOps slots s rest
+    | _ =>
+      match parseCall? ts with
+      | none => "bad-op" :: runOps slots s rest
+      | some c =>
+        let p := seqCall c s
+        showResult ts s.length p.2 :: runOps slots p.1 rest
 
 def runCase (hdr : List String) (ops : List String) : List String :=
   match hdr with
   | ["kv", cap] =>
     match cap.toNat? with
-    | some _ => "ok" :: runOps [] ops
+    | some _ => "ok" :: runOps [] [] ops
     | none => "bad-op" :: ops.map fun _ => "bad-op"
   | _ => "bad-op" :: ops.map fun _ => "bad-op"
 
